@@ -3,6 +3,11 @@
 #include "bloch/compiler/lexer/lexer.hpp"
 #include "bloch/compiler/parser/parser.hpp"
 #include "ast_dump.hpp"
+#include "bloch/compiler/semantics/semantic_analyser.hpp"
+#include "bloch/compiler/import/module_loader.hpp"
+#include <filesystem>
+#include <fstream>
+#include <unistd.h>
 
 using namespace bloch::compiler;
 using bloch::support::BlochError;
@@ -51,7 +56,47 @@ int main() {
         auto a = vh::split(line);
         std::string out = "bad-op";
         try {
-            if (a.size() == 2 && a[0] == "parse") {
+            if (a.size() == 2 && a[0] == "check") {
+                // lexer -> parser -> analyser; the analyser instance is shared across all inputs of this
+                // process and its verdict is compared with a fresh instance's ("usable for the next program")
+                static SemanticAnalyser shared;
+                std::string src = a[1] == "-" ? std::string() : vh::unhexBytes(a[1]);
+                auto verdict = [&](SemanticAnalyser& an) -> std::string {
+                    try {
+                        Lexer lx(src);
+                        auto toks = lx.tokenize();
+                        Parser ps(std::move(toks));
+                        auto prog = ps.parse();
+                        an.analyse(*prog);
+                        return "ok";
+                    } catch (const BlochError& e) {
+                        return std::string("err ") + catName(e.category) + " " + std::to_string(e.line) + " " + std::to_string(e.column);
+                    }
+                };
+                std::string v1 = verdict(shared);
+                SemanticAnalyser fresh;
+                std::string v2 = verdict(fresh);
+                out = v1 == v2 ? v1 : "REUSE-MISMATCH shared=" + v1 + " fresh=" + v2;
+                // the same source through the import loader (as the CLI does), then the analyser
+                {
+                    static std::string dir = std::string("/tmp/front_scratch_") + std::to_string(getpid());
+                    std::filesystem::create_directories(dir);
+                    std::string file = dir + "/input.bloch";
+                    { std::ofstream f(file, std::ios::binary); f << src; }
+                    std::string v3;
+                    try {
+                        ModuleLoader loader(std::vector<std::string>{});
+                        auto prog = loader.load(file);
+                        SemanticAnalyser an;
+                        an.analyse(*prog);
+                        v3 = "ok";
+                    } catch (const BlochError& e) {
+                        v3 = std::string("err ") + catName(e.category) + " " + std::to_string(e.line) + " " + std::to_string(e.column);
+                    }
+                    out += " | " + v3;
+                    std::filesystem::remove(file);
+                }
+            } else if (a.size() == 2 && a[0] == "parse") {
                 std::string src = a[1] == "-" ? std::string() : vh::unhexBytes(a[1]);
                 try {
                     Lexer lx(src);
